@@ -118,6 +118,10 @@ def run_ops(model, objs, ops):
             res.append([dump(objs)])
         elif t == 9:
             res.append([bool(model.has_contradiction())])
+        elif t == 11:
+            b = op[2]
+            model.add_knowledge(objs[op[1]], world=(float(sx.q(b[0])), float(sx.q(b[1]))))
+            res.append([dump(objs)])
         elif t == 13:
             model.add_knowledge(objs[op[1]])
             res.append([dump(objs)])
